@@ -16,6 +16,7 @@ class Sampler:
         self.log: List[dict] = []
         self.script: Optional[List[Optional[int]]] = None
         self._orig = None
+        self.forcer = None  # object with choose(k, p, n) -> index or None
         self.min_forced_p = 1e-12
 
     # -- installation ----------------------------------------------------------------------
@@ -35,6 +36,7 @@ class Sampler:
 
     def reset(self, script=None):
         self.log = []
+        self.forcer = None
         self.script = list(script) if script is not None else None
 
     # -- the replacement -------------------------------------------------------------------
@@ -49,6 +51,8 @@ class Sampler:
         forced = None
         if self.script is not None and k < len(self.script) and self.script[k] is not None:
             forced = int(self.script[k])
+        elif self.forcer is not None:
+            forced = self.forcer.choose(k, pv, len(avals))
         rec = dict(key=np.asarray(key).tolist(), p=None if pv is None else pv.copy(), n=len(avals), forced=forced is not None)
         if forced is not None:
             if forced >= len(avals):
